@@ -107,6 +107,15 @@ def run(tier):
                    functions=['quantum.gates.Scalar.dagger'], what='dagger of a scalar is its conjugate')
     suite.identity('scalar.real.dagger_eval', eval_matrix(scalar(a).dagger()), [[a]], extra=(a,),
                    functions=['quantum.gates.Scalar.dagger'])
+    # square roots: sqrt(v) evaluates to a square root of v and its dagger to the conjugate of that number
+    for v in (2, -2, 2j, -1 + 1j):
+        with suite.guard('sqrt(%s)' % (v,), ['quantum.gates.Sqrt']):
+            r = complex(numpy.array(sqrt(v).eval().array).flatten()[0])
+            d = complex(numpy.array(sqrt(v).dagger().eval().array).flatten()[0])
+            suite.fact('sqrt(%s).squares_to' % (v,), abs(r * r - v) < 1e-12, functions=['quantum.gates.Sqrt.array'],
+                       what='sqrt(v).eval() ** 2 == v (got %r)' % (r,))
+            suite.fact('sqrt(%s).dagger_eval' % (v,), abs(d - r.conjugate()) < 1e-12, functions=['quantum.gates.Scalar.dagger'],
+                       what='the dagger of sqrt(%s) evaluates to the conjugate %r of %r (got %r)' % (v, r.conjugate(), r, d))
     # circuits: ordered product on the stated qubits (samples of the compositional theorem C09)
     Id = circuit.Id
     samples = {
